@@ -175,7 +175,7 @@ let dump_htab b h =
   Buffer.add_string b (Printf.sprintf " #c%d #b%d #z%d #E" (int_of_n h.collisions) (int_of_nat h.els_bound) (List.length h.entries));
   Buffer.add_string b (String.concat "," (List.map (function Empty -> "." | Deleted -> "x" | Ix n -> string_of_int (int_of_nat n)) h.entries))
 
-let run_htab args ops =
+let run_htab with_free args ops =
   let nums = List.map int_of_string (words args) in
   let min_size, table = match nums with m :: t -> m, t | [] -> 0, [] in
   let tbl = List.map n_of_int table in
@@ -206,13 +206,13 @@ let run_htab args ops =
             Buffer.add_string b (show_ints "#l" l)
           | HoN n -> Buffer.add_string b (" #c" ^ string_of_int (int_of_n n)));
          let rec drop n l = if n = 0 then l else match l with [] -> [] | _ :: r -> drop (n - 1) r in
-         let fr = List.map int_of_n (drop nlog h'.flog) in
+         let fr = if with_free then List.map int_of_n (drop nlog h'.flog) else [] in
          Buffer.add_string b (show_ints "F" (List.sort compare fr));
          Buffer.add_string b (show_ints "#F" fr);
          dump_htab b h'))
     (String.split_on_char ';' ops);
   (* HTAB_DESTROY = clear (the table has a free function) *)
-  let l = live !h in
+  let l = if with_free then live !h else [] in
   Buffer.add_string b (show_ints "D" (List.sort compare l));
   Buffer.add_string b (show_ints "#D" l);
   print_endline (Buffer.contents b)
@@ -280,7 +280,8 @@ let () =
         (match words hd with
          | "varr" :: rest -> run_varr (String.concat " " rest) ops
          | "bitmap" :: rest -> run_bitmap (String.concat " " rest) ops
-         | "htab" :: rest -> run_htab (String.concat " " rest) ops
+         | "htab" :: rest -> run_htab true (String.concat " " rest) ops
+         | "htabn" :: rest -> run_htab false (String.concat " " rest) ops   (* free_func == NULL: the log is ghost (HtabGhost.v) *)
          | "dlist" :: rest -> run_dlist (String.concat " " rest) ops
          | k :: _ -> print_endline ("?kind " ^ k)
          | [] -> ())
